@@ -20,18 +20,20 @@ ID = "C15"
 RULE = (
     "absolute: partial grids without pole-enclosing faces {mixed 3..6-gon patch, antimeridian strip (nodes on +-180), three crossing faces of sizes 3/4/5 between ordinary "
     "faces, one face of every size 3..8} x {to_geodataframe (spatialpandas, geopandas), to_polycollection, to_linecollection, UxDataArray.to_geodataframe, UxDataArray.to_polycollection} x "
-    "periodic_elements {exclude, split, ignore} x projection {None, Robinson}; history: BFS depth d over 46 conversion events (arguments x "
+    "periodic_elements {exclude, split, ignore} x projection {None, Robinson}; plus, on the grids with faces at every longitude / at +-180 (equatorial ring of 8 quads + 8 triangles, am3, amstrip), the same calls x {exclude, ignore} x projection central longitude {90, 180, -120}; history: BFS depth d over 46 conversion events (arguments x "
     "cache/override flags x projections incl. central_longitude=180 x two data variables) on 3 grids, states merged on the digest of the grid's caches. "
     "non-trivial = grid with at least one antimeridian face and one ordinary face, or a history event that hit / replaced a cache; distinct = (grid, call, arguments)"
 )
 ASSUMPTIONS = [
     "corner coordinates are compared at float32 resolution (the library builds float32 shells): 1e-4 degrees / relative 1e-5 for projected metres",
     "a polygon 'shows' a face if its exterior ring, with consecutive duplicate vertices removed, equals the face's corner cycle up to rotation and orientation (spatialpandas re-orients rings)",
-    "absolute oracle only for projections with central longitude 0 (the statement defines antimeridian faces in plain longitudes); shifted central longitudes take part in the history search, where the reference is the fresh-grid result",
+    "for projections with central longitude 0 the absolute oracle also fixes WHICH faces 'exclude' drops; for central longitudes 90 / 180 / -120 (Robinson, Mollweide) it judges only what the statement fixes there: every polygon is the projected image of one face, in ascending face order, 'ignore' shows all faces, and each carried value is the value of the face shown (which faces are dropped is left to the history search, where the reference is the fresh-grid result)",
     "split: total area of a face's pieces in the unwrapped lon/lat plane equals the face's planar area within 3% (the cut points lie on great-circle edges, not on straight lon/lat lines), no piece has an edge with |dlon| >= 180",
 ]
-BOUNDS = {"quick": "absolute on 4 grids; history depth 2 over 49 events on 2 grids, depth 3 over the ~30 cache-relevant events on 1 grid", "thorough": "absolute on 7 grids; history depth 3 over 49 events on 2 grids, depth 2 on 2 more"}
-GRIDS_Q = ["mixedpatch", "amstrip", "am3", "sizes38"]
+BOUNDS = {"quick": "absolute on 5 grids (3 of them also with shifted central longitudes); history depth 2 over 49 events on 2 grids, depth 3 over the ~30 cache-relevant events on 1 grid", "thorough": "absolute on 8 grids; history depth 3 over 49 events on 2 grids, depth 2 on 2 more"}
+GRIDS_Q = ["mixedpatch", "amstrip", "am3", "sizes38", "eqring"]
+SHIFTED = ("robinson90", "robinson180", "mollweide-120")
+SHIFTED_GRIDS = ("eqring", "am3", "amstrip")
 GRIDS_T = GRIDS_Q + ["am3:rev", "isolated", "cornertouch"]
 
 
@@ -186,6 +188,36 @@ def judge_rows(rows, mdl, pe, projected, bad, what, data=None):
                 return
 
 
+def judge_shifted(rows, mdl, pe, bad, what, data=None):
+    """projection with a non-zero central longitude: which faces 'exclude' drops is not judged (the statement defines
+    crossing faces in plain longitudes; the library drops those straddling the projection's own seam), but every polygon
+    that is shown must be the projected image of one face, faces appear in ascending order without repetition, 'ignore'
+    shows every face, and the value a polygon carries is the value of the face it shows."""
+    n = len(mdl.faces)
+    if data is not None and len(data) != len(rows):
+        bad("c15:%s:data-length" % what, "%d data values for %d polygons" % (len(data), len(rows)))
+        return
+    if pe == "ignore" and len(rows) != n:
+        bad("c15:%s:ignore:count" % what, "%d polygons, the grid has %d faces" % (len(rows), n))
+        return
+    if len(rows) > n:
+        bad("c15:%s:%s:count" % (what, pe), "%d polygons, the grid has %d faces" % (len(rows), n))
+        return
+    last = -1
+    for r, rings in enumerate(rows):
+        if len(rings) != 1:
+            bad("c15:%s:%s:multi-ring" % (what, pe), "row %d has %d rings" % (r, len(rings)))
+            return
+        hit = [j for j in range(last + 1, n) if _same_ring(rings[0], mdl.pcorners[j], mdl.tol(True, j))]
+        if not hit:
+            bad("c15:%s:%s:polygon-is-not-its-face" % (what, pe), "polygon %d (%s) is the projected image of no face after face %d" % (r, np.round(_dedup(rings[0]), 1).tolist(), last))
+            return
+        last = hit[0]
+        if data is not None and int(data[r]) != last:
+            bad("c15:%s:%s:data-misaligned" % (what, pe), "polygon %d shows face %d but carries the value of face %d" % (r, last, int(data[r])))
+            return
+
+
 def _judge_pieces(i, rings, mdl, bad, what):
     c = mdl.corners[i].copy()
     if i in mdl.am:
@@ -276,6 +308,46 @@ def _run_absolute(case, res):
                         else:
                             judge_rows([[s] for s in segs], mdl, pe, projected, bad, "line")
                     res["outcomes"].append(digest((call, pe, proj, "ok")))
+                except Exception as e:
+                    bad("c15:%s:raises:%s" % (call.split(":")[0], type(e).__name__), "raised %r" % (e,))
+    # projections whose central longitude is not 0 (seam elsewhere than +-180)
+    for proj in (SHIFTED if case["mesh"] in SHIFTED_GRIDS else ()):
+        mdl = Model(m, proj)
+        for pe in ("exclude", "ignore"):
+            for call in ("gdf:spatialpandas", "gdf:geopandas", "poly", "uxda.gdf:spatialpandas", "uxda.gdf:geopandas", "uxda.poly"):
+                foc = {"proj": proj, "pe": pe, "call": call}
+                if "only" in case and foc != case["only"]:
+                    continue
+                focus = dict(case, only=foc)
+
+                def bad(sig, msg):
+                    V.append({"oracle": "absolute-shifted", "sig": sig.replace("c15:", "c15:shifted:", 1), "msg": "grid %s, %s(periodic_elements=%s, projection=%s): %s" % (case["mesh"], call, pe, proj, msg), "focus": focus})
+
+                pool.fresh()
+                g = build.grid(m)
+                P = E._proj(proj)
+                res["evaluations"] += 1
+                res["transitions"] += 1
+                key = digest((case["mesh"], foc))
+                res["states"].append(key)
+                res["nontrivial"].append(key)
+                try:
+                    da = build.uxda(g, np.arange(m.n_face, dtype=float), "n_face", name="ident")
+                    if call.startswith("gdf:"):
+                        rows = _rings_of_gdf(g.to_geodataframe(periodic_elements=pe, projection=P, engine=call[4:]))
+                        data = None
+                    elif call.startswith("uxda.gdf:"):
+                        gdf = da.to_geodataframe(periodic_elements=pe, projection=P, engine=call[9:])
+                        rows, data = _rings_of_gdf(gdf), np.asarray(gdf["ident"].values)
+                    elif call == "poly":
+                        pc = g.to_polycollection(periodic_elements=pe, projection=P)
+                        rows, data = [[np.asarray(q.vertices, dtype=float)] for q in pc.get_paths()], None
+                    else:
+                        pc = da.to_polycollection(periodic_elements=pe, projection=P)
+                        rows = [[np.asarray(q.vertices, dtype=float)] for q in pc.get_paths()]
+                        data = np.ma.filled(np.ma.asarray(pc.get_array()).astype(float), np.nan)
+                    judge_shifted(rows, mdl, pe, bad, call.split(":")[0], data)
+                    res["outcomes"].append(digest((call, pe, proj, len(rows))))
                 except Exception as e:
                     bad("c15:%s:raises:%s" % (call.split(":")[0], type(e).__name__), "raised %r" % (e,))
     # antimeridian_face_indices by definition
